@@ -30,7 +30,32 @@ func (e *Engine) loopClauses(s ast.Stmt, kind string) []*Clause {
 	if i < 0 {
 		return nil
 	}
-	return fi.Contract.byKind(kind, fmt.Sprintf("loop#%d", i))
+	cls := fi.Contract.byKind(kind, fmt.Sprintf("loop#%d", i))
+	if kind != "invariant" || currentProp == "" {
+		return cls
+	}
+	// an invariant tagged with property ids carries those properties only: a run for another property neither assumes
+	// nor checks it (so that a change breaking it is reported under the property it belongs to and nowhere else)
+	var out []*Clause
+	for _, cl := range cls {
+		if propTagged(cl.Tags) && !hasTag(cl.Tags, currentProp) {
+			continue
+		}
+		out = append(out, cl)
+	}
+	return out
+}
+
+// property of the current run ("" = all)
+var currentProp string
+
+func propTagged(tags []string) bool {
+	for _, t := range tags {
+		if len(t) == 3 && t[0] == 'C' && t[1] >= '0' && t[1] <= '9' && t[2] >= '0' && t[2] <= '9' {
+			return true
+		}
+	}
+	return false
 }
 
 // havoc set of a loop body
@@ -268,6 +293,7 @@ func (e *Engine) collectHavoc(nodes []ast.Node, st *State) *havocSet {
 							if b, ok := e.eval(se.X, tmp).(VTerm); ok {
 								h.mem["extrem:"+b.T.String()] = true
 								h.mem["csvfpr:"+b.T.String()] = true
+								h.mem["jsoncnt:"+b.T.String()] = true
 							}
 						}()
 						e.obls = e.obls[:nob]
